@@ -329,6 +329,7 @@ func (in *Interp) operand(fr *frame, v ssa.Value, st *State) Value {
 
 func getPath(v Value, path []int) Value {
 	for _, i := range path {
+		v = materialize(v)
 		switch a := v.(type) {
 		case *Struct:
 			v = a.F[i]
@@ -344,11 +345,37 @@ func getPath(v Value, path []int) Value {
 	return v
 }
 
+// materialize expands an opaque struct/array term into per-field terms so a field can be updated.
+func materialize(v Value) Value {
+	s, ok := v.(*Sym)
+	if !ok || s.T == nil {
+		return v
+	}
+	switch u := s.T.Underlying().(type) {
+	case *types.Struct:
+		n := &Struct{T: s.T, F: make([]Value, u.NumFields())}
+		for i := range n.F {
+			n.F[i] = fieldOf(s, i, u.Field(i).Type())
+		}
+		return n
+	case *types.Array:
+		if u.Len() <= 64 {
+			n := &Array{T: s.T, E: make([]Value, u.Len())}
+			for i := range n.E {
+				n.E[i] = NewSym(u.Elem(), "[]", s, MkInt(int64(i), types.Typ[types.Int]))
+			}
+			return n
+		}
+	}
+	return v
+}
+
 func setPath(v Value, path []int, nv Value) Value {
 	if len(path) == 0 {
 		return nv
 	}
 	i := path[0]
+	v = materialize(v)
 	switch a := v.(type) {
 	case *Struct:
 		n := &Struct{T: a.T, F: append([]Value(nil), a.F...)}
@@ -373,8 +400,8 @@ func (in *Interp) load(st *State, addr Value, t types.Type) Value {
 		if v, ok := st.SymMem[key]; ok {
 			return v
 		}
-		if strings.HasPrefix(p.Op, "global:") && in.Global != nil {
-			// resolved by caller through operand(*ssa.Global); handled in unop
+		if v, ok := in.loadGlobalPath(p); ok {
+			return v
 		}
 		// a field of something stored/known as a whole
 		if strings.HasPrefix(p.Op, "&.") && len(p.Args) == 1 {
@@ -459,6 +486,9 @@ func fieldOf(x Value, field int, t types.Type) Value {
 			if stt, ok := s.T.Underlying().(*types.Struct); ok && field < stt.NumFields() {
 				name = stt.Field(field).Name()
 			}
+		}
+		if s.Op == "*" && len(s.Args) == 1 { // field of *p is p.field
+			return NewSym(t, "."+name, s.Args[0])
 		}
 		return NewSym(t, "."+name, x)
 	}
@@ -688,4 +718,76 @@ func (in *Interp) builtin(b *ssa.Builtin, args []Value, ins *ssa.Call, st *State
 	}
 	st.Note("unsupported builtin %s", b.Name())
 	return NewSym(ins.Type(), "builtin:"+b.Name(), args...)
+}
+
+// loadGlobalPath resolves address terms &[]/&.field rooted at an immutable global whose indices
+// are constants.
+func (in *Interp) loadGlobalPath(p *Sym) (Value, bool) {
+	if in.Global == nil {
+		return nil, false
+	}
+	var walk func(a *Sym) (Value, bool)
+	walk = func(a *Sym) (Value, bool) {
+		switch {
+		case strings.HasPrefix(a.Op, "global:"):
+			g := in.globalByKey(a.Op)
+			if g == nil {
+				return nil, false
+			}
+			return in.Global(g)
+		case a.Op == "&[]" && len(a.Args) == 2:
+			base, ok := a.Args[0].(*Sym)
+			if !ok {
+				return nil, false
+			}
+			bv, ok := walk(base)
+			if !ok {
+				return nil, false
+			}
+			arr, ok := bv.(*Array)
+			i, isC := ConstInt(a.Args[1])
+			if !ok || !isC || i < 0 || int(i) >= len(arr.E) {
+				return nil, false
+			}
+			return arr.E[i], true
+		case strings.HasPrefix(a.Op, "&.") && len(a.Args) == 1:
+			base, ok := a.Args[0].(*Sym)
+			if !ok {
+				return nil, false
+			}
+			bv, ok := walk(base)
+			if !ok {
+				return nil, false
+			}
+			st, ok := bv.(*Struct)
+			if !ok {
+				return nil, false
+			}
+			name := strings.TrimPrefix(a.Op, "&.")
+			stt := st.T.Underlying().(*types.Struct)
+			for i := 0; i < stt.NumFields(); i++ {
+				if stt.Field(i).Name() == name {
+					return st.F[i], true
+				}
+			}
+		}
+		return nil, false
+	}
+	return walk(p)
+}
+
+func (in *Interp) globalByKey(key string) *ssa.Global {
+	name := strings.TrimPrefix(key, "global:")
+	i := strings.LastIndex(name, ".")
+	if i < 0 {
+		return nil
+	}
+	for _, pkg := range in.Prog.AllPackages() {
+		if pkg.Pkg.Path() == name[:i] {
+			if g, ok := pkg.Members[name[i+1:]].(*ssa.Global); ok {
+				return g
+			}
+		}
+	}
+	return nil
 }
